@@ -26,6 +26,8 @@ def cases(tier):
         variants = [
             ("alphas_subset", dict(alphas=[a1], estimands=["turnout"], aggregates=full_aggs),
              dict(alphas=[a1, a2], estimands=["turnout"], aggregates=full_aggs)),
+            ("alphas_subset_high", dict(alphas=[a2], estimands=["turnout"], aggregates=full_aggs),
+             dict(alphas=[a1, a2], estimands=["turnout"], aggregates=full_aggs)),
             ("alphas_order", dict(alphas=[a1, a2], estimands=["turnout"], aggregates=full_aggs),
              dict(alphas=[a2, a1], estimands=["turnout"], aggregates=full_aggs)),
             ("aggs_subset", dict(alphas=[a1], estimands=["turnout"], aggregates=["postal_code", "unit"]),
